@@ -211,6 +211,8 @@ def gen(rng, tier):
     for _ in range(160 if quick else 3000):
         nth = rng.choice([1, 2, 3, 8])
         cases.append(render(nth, gen_program(rng, nth, rng.choice([3, 6, 12]), install_first=rng.random() < 0.3)))
+    # the stdout default being started by a first logging call while another thread installs a logger
+    cases += ["race %d" % k for k in ((192, 384) if quick else (192, 384, 1920, 1920, 3840))]
     for _ in range(60 if quick else 20000):
         nth = rng.choice([2, 3, 4, 8])
         cases.append(render(nth, gen_program(rng, nth, rng.choice([10, 40, 120]), install_first=False, free=True), mode="free"))
@@ -234,12 +236,16 @@ def parse(case):
 
 
 def classify(case, model):
+    if case.startswith("race"):
+        return "race:install-vs-first-use"
     mode, nth, steps = parse(case)
     ops = set(a.split()[0] for _, a in steps)
     return "%s:threads%s:%s" % (mode, nth if nth <= 2 else "3-8", "+".join(sorted(ops & {"gone", "drop", "wb", "wr", "lr"})))
 
 
 def nontrivial(case, model):
+    if case.startswith("race"):
+        return True
     _, _, steps = parse(case)
     return any(a.split()[0] in ("log", "raw", "lr", "we", "wr") for _, a in steps)
 
